@@ -1,8 +1,15 @@
 package props
 
 import (
+	"bytes"
+	"encoding/json"
 	"fmt"
 	"os"
+	"os/exec"
+	"path/filepath"
+	"strings"
+
+	"verif/engine/ev"
 )
 
 // Registry maps property ids to their checks.
@@ -39,8 +46,41 @@ func Worker(args []string) {
 	os.Exit(2)
 }
 
-// Replay re-executes a recorded violation.
+// Replay re-executes a recorded violation: the checks enumerate their case
+// spaces deterministically, so the recorded case is reached again by re-running
+// the check of the recorded tier; the replay succeeds (exit 1, VIOLATION line)
+// iff a violation with the recorded key is reported again.
 func Replay(id, path string) {
-	fmt.Fprintln(os.Stderr, "replay not implemented for", id)
-	os.Exit(2)
+	b, err := os.ReadFile(path)
+	if err != nil {
+		fmt.Fprintln(os.Stderr, err)
+		os.Exit(2)
+	}
+	var rec struct {
+		Property, Tier, Key, Desc string
+	}
+	if err := json.Unmarshal(b, &rec); err != nil || rec.Key == "" {
+		fmt.Fprintln(os.Stderr, "not a replay file:", err)
+		os.Exit(2)
+	}
+	if rec.Tier == "" {
+		rec.Tier = "quick"
+	}
+	dir, _ := os.MkdirTemp(filepath.Join(ev.Root(), ".work"), "replay-")
+	defer os.RemoveAll(dir)
+	cmd := exec.Command(os.Args[0], id, rec.Tier)
+	cmd.Env = append(os.Environ(), "VERIF_EVIDENCE_DIR="+dir, "VERIF_REPLAY_DIR="+dir)
+	out, _ := cmd.CombinedOutput()
+	fmt.Printf("recorded: key=%s %s\n", rec.Key, rec.Desc)
+	if bytes.Contains(out, []byte("key="+rec.Key+" ")) {
+		for _, l := range strings.Split(string(out), "\n") {
+			if strings.Contains(l, "key="+rec.Key+" ") {
+				fmt.Println("reproduced:" + l)
+			}
+		}
+		fmt.Printf("VIOLATION property=%s replay=%s\n", id, path)
+		os.Exit(1)
+	}
+	fmt.Println("not reproduced on the current tree")
+	os.Exit(0)
 }
